@@ -5,7 +5,9 @@ markdown table used in DESIGN.md."""
 import json, os, re, sys
 root = os.path.join(os.path.dirname(os.path.abspath(__file__)), "..")
 res = {}
-for log in sys.argv[1:]:
+import glob
+logs = sys.argv[1:] or sorted(glob.glob(os.path.join(root, 'seeded', 'eval-logs', '*.log')))
+for log in logs:
     txt = open(log).read()
     for blk in re.split(r"(?m)^=== ", txt)[1:]:
         name = blk.split("\n")[0].strip()
@@ -23,7 +25,7 @@ NEEDS = json.load(open(os.path.join(root, "seeded", "needs.json")))
 rows = []
 for name in sorted(os.listdir(os.path.join(root, "seeded"))):
     d = os.path.join(root, "seeded", name)
-    if not os.path.isdir(d):
+    if not os.path.isdir(d) or not os.path.exists(os.path.join(d, 'patch.diff')):
         continue
     r = res.get(name, {"confirm": {}, "checks": {}})
     prop = name.split("-")[0]
